@@ -86,6 +86,11 @@ pub struct Case {
     /// first attachment is installed as descriptor 0
     #[serde(default)]
     pub fd0: bool,
+    /// the program keeps a second handle of every attached sender: whatever happens to the
+    /// attached copy (decoded, refused, dropped undecoded), the channel must stay usable through
+    /// the kept handle
+    #[serde(default)]
+    pub keep_original: bool,
 }
 
 // ---- Raw: arbitrary bytes + attachments through the public API ---------------------------------
@@ -508,14 +513,14 @@ impl Prop for C16 {
             5 => (0u8..NTYPES, any::<u64>(), proptest::collection::vec(mutation, 0..3)).prop_map(|(base, seed, muts)| Gen::Valid { base, seed, muts }),
         ];
         let att = prop_oneof![Just(Att::Tx), Just(Att::Rx), Just(Att::Shm)];
-        (0u8..NTYPES, gen, proptest::collection::vec(att, 0..=8), prop_oneof![4 => 0u8..3, 1 => 3u8..5], any::<bool>(), prop_oneof![4 => Just(false), 1 => Just(true)])
-            .prop_map(|(ty, gen, atts, via, same, fd0)| {
+        (0u8..NTYPES, gen, proptest::collection::vec(att, 0..=8), prop_oneof![4 => 0u8..3, 1 => 3u8..5], any::<bool>(), prop_oneof![4 => Just(false), 1 => Just(true)], prop_oneof![2 => Just(false), 1 => Just(true)])
+            .prop_map(|(ty, gen, atts, via, same, fd0, keep_original)| {
                 // mostly decode as the type the bytes were made for (mutations matter most there)
                 let ty = match (&gen, same) {
                     (Gen::Valid { base, .. }, true) => *base,
                     _ => ty,
                 };
-                Case { ty, gen, atts, via, fd0 }
+                Case { ty, gen, atts, via, fd0, keep_original }
             })
             .boxed()
     }
@@ -550,22 +555,26 @@ pub fn run_case(case: &Case) -> Result<Outcome, Failure> {
     // attachment the receiver of a fresh channel, regions have distinct contents
     let mut kept_rx: Vec<Option<IpcReceiver<Node>>> = vec![];
     let mut kept_tx: Vec<Option<IpcSender<Node>>> = vec![];
+    let mut kept_orig: Vec<Option<IpcSender<Node>>> = vec![];
     let mut atts = vec![];
     for (i, a) in case.atts.iter().enumerate() {
         match a {
             Att::Tx => {
                 let (t, r) = chan()?;
+                kept_orig.push(if case.keep_original { Some(t.clone()) } else { None });
                 atts.push(AttReal::Tx(t));
                 kept_rx.push(Some(r));
                 kept_tx.push(None);
             },
             Att::Rx => {
                 let (t, r) = chan()?;
+                kept_orig.push(None);
                 atts.push(AttReal::Rx(r));
                 kept_rx.push(None);
                 kept_tx.push(Some(t));
             },
             Att::Shm => {
+                kept_orig.push(None);
                 atts.push(AttReal::Shm(IpcSharedMemory::from_bytes(&payload::stream(i as u64 + 1, 64 + i))));
                 kept_rx.push(None);
                 kept_tx.push(None);
@@ -766,6 +775,29 @@ pub fn run_case(case: &Case) -> Result<Outcome, Failure> {
     let drop_r = std::panic::catch_unwind(std::panic::AssertUnwindSafe(move || drop(held)));
     if drop_r.is_err() {
         fail!("decode:bogus-endpoint", "dropping the handed-out endpoints panicked (an endpoint that was not really attached): {:?}", crate::take_panics());
+    }
+    // ---- a kept second handle of an attached sender still works, whatever became of the copy ------
+    for (i, o) in kept_orig.iter_mut().enumerate() {
+        if let (Some(orig), Some(r)) = (o.take(), kept_rx[i].as_ref()) {
+            let nonce = 0xc000 + i as u64;
+            let sent = orig.send(Node::U64(nonce));
+            ensure!(sent.is_ok(), "decode:live-channel-broken", "sender attachment {} was a clone; the program's own handle of that channel can no longer send after the attached copy was {} (type #{}, via {}): {:?}", i, if decoded_ok { "decoded" } else { "refused or dropped undecoded" }, case.ty % NTYPES, via, sent.map_err(|e| e.to_string()));
+            let mut arrived = false;
+            loop {
+                match r.try_recv() {
+                    Ok(Node::U64(x)) if x == nonce => {
+                        arrived = true;
+                        break;
+                    },
+                    Ok(_) => continue,
+                    Err(TryRecvError::Empty) => break,
+                    Err(TryRecvError::IpcError(IpcError::Disconnected)) => break,
+                    Err(_) => continue,
+                }
+            }
+            ensure!(arrived, "decode:live-channel-broken", "sender attachment {} was a clone; a message sent through the program's own handle of that channel after the attached copy was {} did not arrive (type #{}, via {})", i, if decoded_ok { "decoded" } else { "refused or dropped undecoded" }, case.ty % NTYPES, via);
+            drop(orig);
+        }
     }
     if via == 4 {
         // the router thread drops the message asynchronously after the callback; give it a moment
